@@ -67,3 +67,15 @@ Definition eval_sg_case (k : sg_case) : list Z :=
   [ -1; b2z (sg_completed k);
     b2z ((0 <=? sg_exit_ms k) && (sg_exit_ms k <=? sg_timeout k * 1000 + 500) && Z.eqb (sg_code k) 0);
     b2z (negb (Z.eqb (sg_phase k) 0) || sg_hang_hc k) ].
+
+(* ---- race suite (C12): concurrent operation mix on the real balancer under the race detector ---- *)
+Record rc_case := mkRcCase {
+  rc_cfg : Z;            (* strategy*32 + breaker*16 + limiter*8 + active*4 + passive*2 + pool *)
+  rc_goroutines : Z;
+  rc_races : Z;          (* DATA RACE reports of the detector during this run *)
+  rc_panics : Z;         (* panics other than the proxy's own ErrAbortHandler *)
+  rc_deadlock : Z        (* 1 = workers or Stop did not finish within the watchdog *)
+}.
+(* result vector: [diff (nothing predicted); mon_c12_no_race; mon_c12_no_panic; mon_c12_no_deadlock; nt_c12] *)
+Definition eval_rc_case (k : rc_case) : list Z :=
+  [ -1; b2z (Z.eqb (rc_races k) 0); b2z (Z.eqb (rc_panics k) 0); b2z (Z.eqb (rc_deadlock k) 0); b2z (8 <=? rc_goroutines k) ].
